@@ -137,7 +137,13 @@ type TX struct { // table "ts" of the executed stream
 }
 
 func (TX) TableName() string { return "ts" }
-func (U) TableName() string  { return "us" }
+
+// hooks whose effect is visible in what is loaded (AfterFind) and in the bound values (BeforeCreate)
+func (t *TX) AfterFind(*gorm.DB) error    { t.K4 += 1000; return nil }
+func (u *U) AfterFind(*gorm.DB) error     { u.C3 += 5000; return nil }
+func (t *TX) BeforeCreate(*gorm.DB) error { t.C3 = 77; return nil }
+func (u *U) BeforeCreate(*gorm.DB) error  { u.C2 = 88; return nil }
+func (U) TableName() string               { return "us" }
 
 func openExec() (*gorm.DB, *recdrv.Recorder) {
 	db, rec, _, err := gdb.Open(gdb.Opt{Config: &gorm.Config{SkipDefaultTransaction: true, Logger: logger.Discard}})
@@ -149,8 +155,9 @@ func openExec() (*gorm.DB, *recdrv.Recorder) {
 		ts = append(ts, TX{ID: i, C1: i % 3, C2: 7 - i, C3: i * 2, K4: 100 + i})
 		us = append(us, U{ID: i + 10, C1: i % 2, C2: i, C3: 13 - i, K4: 200 + i})
 	}
-	lib.Must(db.Create(&ts).Error)
-	lib.Must(db.Create(&us).Error)
+	seed := db.Session(&gorm.Session{SkipHooks: true})
+	lib.Must(seed.Create(&ts).Error)
+	lib.Must(seed.Create(&us).Error)
 	rec.Reset()
 	return db, rec
 }
@@ -209,6 +216,14 @@ func applyX(db *gorm.DB, op *Op, group *gorm.DB) *gorm.DB {
 		}
 		return db.Distinct(args...)
 	case "x_table":
+		switch nm(0) {
+		case "expr": // a sub-query expression with an argument and an alias
+			return db.Table("(SELECT * FROM ts WHERE id > ?) AS ts", op.N)
+		case "alias":
+			return db.Table("us AS ua")
+		case "empty": // forget the table override
+			return db.Table("")
+		}
 		return db.Table(nm(0))
 	case "x_model":
 		if nm(0) == "U" {
@@ -264,6 +279,12 @@ func applyFinX(db *gorm.DB, f *Fin) (*gorm.DB, string) {
 		var n int64
 		tx := db.Count(&n)
 		return tx, fmt.Sprint(n)
+	case "x_create_dry": // bound values of an INSERT (hooks!) without touching the tables
+		d := db.Session(&gorm.Session{DryRun: true})
+		if f.M == "U" {
+			return d.Create(&U{C1: 1, K4: 9}), ""
+		}
+		return d.Create(&TX{C1: 1, K4: 9}), ""
 	case "x_pluck":
 		var d []int64
 		tx := db.Pluck(f.Name, &d)
@@ -279,6 +300,14 @@ func applyFinX(db *gorm.DB, f *Fin) (*gorm.DB, string) {
 		return tx, fmt.Sprint(d)
 	}
 	panic("unknown x finisher " + f.K)
+}
+
+// stmtText: what a DryRun handle built (empty after a real execution: Execute resets it)
+func stmtText(tx *gorm.DB) string {
+	if tx.Statement.SQL.Len() == 0 {
+		return ""
+	}
+	return fmt.Sprintf(" dry[%s %v]", tx.Statement.SQL.String(), tx.Statement.Vars)
 }
 
 func drain(rec *recdrv.Recorder) string {
@@ -324,7 +353,7 @@ func runExec(in Input) Obs {
 		case "finish":
 			rec.Reset()
 			tx, res := applyFinX(parent, st.Fin)
-			fo := FinObs{Step: i, SQL: drain(rec) + "=> " + res + fmt.Sprintf(" ra=%d", tx.RowsAffected), Err: errStr(tx.Error)}
+			fo := FinObs{Step: i, SQL: drain(rec) + "=> " + res + fmt.Sprintf(" ra=%d", tx.RowsAffected) + stmtText(tx), Err: errStr(tx.Error)}
 			handles = append(handles, tx)
 			paths = append(paths, append(append([]Step(nil), paths[p]...), st))
 			cur, arec := openExec()
@@ -354,7 +383,7 @@ func runExec(in Input) Obs {
 			}
 			arec.Reset()
 			atx, ares := applyFinX(cur, st.Fin)
-			fo.ASQL, fo.AErr = drain(arec)+"=> "+ares+fmt.Sprintf(" ra=%d", atx.RowsAffected), errStr(atx.Error)
+			fo.ASQL, fo.AErr = drain(arec)+"=> "+ares+fmt.Sprintf(" ra=%d", atx.RowsAffected)+stmtText(atx), errStr(atx.Error)
 			if sq, err := cur.DB(); err == nil {
 				sq.Close()
 			}
@@ -510,6 +539,9 @@ func (e *env) apply(db *gorm.DB, handles []*gorm.DB, op *Op) *gorm.DB {
 	case "unscoped":
 		return db.Unscoped()
 	case "table":
+		if op.N == 0 {
+			return db.Table("") // forget the table override
+		}
 		return db.Table(mk("t", op.N))
 	case "model":
 		return db.Model(&T{})
@@ -561,8 +593,6 @@ func applySess(db *gorm.DB, k string) *gorm.DB {
 	switch k {
 	case "plain":
 		return db.Session(&gorm.Session{})
-	case "newdb":
-		return db.Session(&gorm.Session{NewDB: true})
 	case "ctx":
 		return db.WithContext(context.Background())
 	case "debug":
@@ -570,7 +600,35 @@ func applySess(db *gorm.DB, k string) *gorm.DB {
 	case "begin":
 		return db.Begin()
 	}
-	panic("unknown session " + k)
+	// Session{...} with each option alone or combined: "skiphooks+queryfields", ...
+	cfg := &gorm.Session{}
+	for _, o := range strings.Split(k, "+") {
+		switch o {
+		case "newdb":
+			cfg.NewDB = true
+		case "skiphooks":
+			cfg.SkipHooks = true
+		case "dryrun":
+			cfg.DryRun = true
+		case "initialized":
+			cfg.Initialized = true
+		case "queryfields":
+			cfg.QueryFields = true
+		case "fullsave":
+			cfg.FullSaveAssociations = true
+		case "allowglobal":
+			cfg.AllowGlobalUpdate = true
+		case "batchsize":
+			cfg.CreateBatchSize = 2
+		case "skipdeftx":
+			cfg.SkipDefaultTransaction = true
+		case "nonested":
+			cfg.DisableNestedTransaction = true
+		default:
+			panic("unknown session " + k)
+		}
+	}
+	return db.Session(cfg)
 }
 
 func applyFin(db *gorm.DB, f *Fin) *gorm.DB {
@@ -832,7 +890,10 @@ func gStep(s Step) string {
 	case "derive":
 		return lib.App("Derive", lib.Nat(s.P), gOp(s.Op))
 	case "sess":
-		return lib.App("Sess", lib.Nat(s.P), map[string]string{"plain": "SPlain", "newdb": "SNewDB", "ctx": "SCtx", "debug": "SDebug", "begin": "SBegin"}[s.Sess])
+		return lib.App("Sess", lib.Nat(s.P), map[string]string{"plain": "SPlain", "newdb": "SNewDB", "ctx": "SCtx", "debug": "SDebug", "begin": "SBegin",
+			// Session{SkipHooks} clones the statement like WithContext; the other options leave the statement shared
+			"skiphooks": "SCtx", "fullsave": "SPlain", "allowglobal": "SPlain", "batchsize": "SPlain", "skipdeftx": "SPlain",
+			"nonested": "SPlain", "skiphooks+fullsave": "SCtx", "allowglobal+batchsize": "SPlain"}[s.Sess])
 	case "finish":
 		return lib.App("Finish", lib.Nat(s.P), gFin(s.Fin))
 	}
@@ -958,7 +1019,7 @@ func (t *tracker) step(s Step) {
 		switch s.Sess {
 		case "newdb":
 			nh.newdb = true
-		case "ctx":
+		case "ctx", "skiphooks", "skiphooks+fullsave":
 			t.ss = append(t.ss, t.ss[h.stmt])
 			nh.stmt = len(t.ss) - 1
 		case "debug":
@@ -1095,6 +1156,9 @@ func (g *gen) op(stmtOf int) *Op {
 			case 0:
 				return &Op{K: "unscoped"}
 			case 1:
+				if r.Chance(1, 3) {
+					return &Op{K: "table", N: 0}
+				}
 				return &Op{K: "table", N: g.id()}
 			}
 			return &Op{K: "model"}
@@ -1177,7 +1241,8 @@ func genHistory(r *lib.Rng, nsteps int, edge bool) Input {
 			if p < 0 || r.Chance(1, 4) {
 				p = g.pick(true)
 			}
-			k := lib.Pick(r, []string{"plain", "plain", "plain", "plain", "ctx", "debug", "begin", "newdb"})
+			k := lib.Pick(r, []string{"plain", "plain", "plain", "plain", "ctx", "debug", "begin", "newdb",
+				"skiphooks", "skiphooks", "fullsave", "allowglobal", "batchsize", "skipdeftx", "nonested", "skiphooks+fullsave", "allowglobal+batchsize"})
 			s = Step{K: "sess", P: p, Sess: k}
 		case x < 96:
 			p := g.pick(false)
@@ -1201,7 +1266,7 @@ func genHistory(r *lib.Rng, nsteps int, edge bool) Input {
 // genPattern: the interference pattern instantiated for a random appendable clause.
 func genPattern(r *lib.Rng) Input {
 	g := &gen{r: r, t: newTracker(), next: 9, edge: r.Chance(1, 3)}
-	kind := lib.Pick(r, []string{"where", "or", "order", "orderby", "group", "having", "joins", "scopes", "select_slice", "from", "not", "returning", "returning", "limit", "limit", "offset"})
+	kind := lib.Pick(r, []string{"where", "or", "order", "orderby", "group", "having", "joins", "scopes", "select_slice", "from", "not", "returning", "returning", "limit", "limit", "offset", "table", "table"})
 	mk1 := func() *Op {
 		switch kind {
 		case "where":
@@ -1241,6 +1306,11 @@ func genPattern(r *lib.Rng) Input {
 			return &Op{K: "limit", N: int64(lib.Pick(r, []int{-1, -1, 0, 1, 2, 3, 7}))}
 		case "offset":
 			return &Op{K: "offset", N: int64(lib.Pick(r, []int{-1, -1, 0, 1, 2, 5}))}
+		case "table": // a table override, or Table("") that forgets it
+			if r.Chance(2, 5) {
+				return &Op{K: "table", N: 0}
+			}
+			return &Op{K: "table", N: g.id()}
 		}
 		n := r.Range(1, 2)
 		return &Op{K: "from", Xs: g.ids(n), Cap: g.spare(n)}
@@ -1319,7 +1389,7 @@ func genExec(r *lib.Rng) Input {
 			return &Op{K: "x_select_bad", Names: []string{col()}, N: int64(r.Intn(3))}
 		}
 		if r.Bool() {
-			return &Op{K: "x_table", Names: []string{lib.Pick(r, []string{"ts", "us"})}}
+			return &Op{K: "x_table", Names: []string{lib.Pick(r, []string{"ts", "us", "ts", "us", "empty", "empty", "expr", "alias"})}, N: int64(r.Range(0, 4))}
 		}
 		return &Op{K: "x_model", Names: []string{lib.Pick(r, []string{"T", "U"})}}
 	}
@@ -1338,8 +1408,13 @@ func genExec(r *lib.Rng) Input {
 				m = "U"
 			}
 			return &Fin{K: "x_take", M: m}
-		case 5, 6, 7:
+		case 5, 6:
 			return &Fin{K: "x_count"}
+		case 7:
+			if m == "map" {
+				m = "T"
+			}
+			return &Fin{K: "x_create_dry", M: m}
 		case 8:
 			return &Fin{K: "x_pluck", Name: col()}
 		}
@@ -1374,17 +1449,35 @@ func genExec(r *lib.Rng) Input {
 		}
 		return in
 	}
-	if r.Chance(5, 6) {
+	if r.Chance(1, 4) {
+		// the handle carries a table override (plain, aliased or a sub-query expression)
+		cur = push(Step{K: "derive", P: cur, Op: &Op{K: "x_table", Names: []string{lib.Pick(r, []string{"ts", "us", "us", "alias", "expr"})}, N: int64(r.Range(0, 3))}})
+	} else if r.Chance(5, 6) {
 		cur = push(Step{K: "derive", P: cur, Op: &Op{K: "x_model", Names: []string{lib.Pick(r, []string{"T", "U"})}}})
 	}
 	for k := r.Range(1, 4); k > 0; k-- {
 		cur = push(Step{K: "derive", P: cur, Op: xop()})
 	}
-	h := push(Step{K: "sess", P: cur, Sess: lib.Pick(r, []string{"plain", "plain", "plain", "ctx", "debug"})})
+	xsess := func() string {
+		return lib.Pick(r, []string{"plain", "plain", "ctx", "debug", "skiphooks", "skiphooks", "dryrun", "queryfields", "fullsave",
+			"allowglobal", "batchsize", "skipdeftx", "nonested", "skiphooks+queryfields", "dryrun+skiphooks", "queryfields+allowglobal+batchsize"})
+	}
+	h := push(Step{K: "sess", P: cur, Sess: lib.Pick(r, []string{"plain", "plain", "plain", "ctx", "debug", "queryfields", "skiphooks"})})
 	hs := []int{h}
 	for k := r.Range(4, 9); k > 0; k-- {
 		from := lib.Pick(r, hs)
-		switch r.Intn(8) {
+		switch r.Intn(10) {
+		case 8: // a child handle derived straight from the handle with some Session option; the parent is used again later
+			c := push(Step{K: "sess", P: from, Sess: xsess()})
+			if r.Bool() {
+				push(Step{K: "finish", P: c, Fin: xfin()})
+			}
+			if r.Chance(1, 3) {
+				hs = append(hs, c)
+			}
+		case 9: // Session{Initialized} gives a chain, used at once
+			c := push(Step{K: "sess", P: from, Sess: lib.Pick(r, []string{"initialized", "initialized+skiphooks", "newdb"})})
+			push(Step{K: "finish", P: c, Fin: xfin()})
 		case 7: // a malformed call on a chain that is then abandoned
 			push(Step{K: "derive", P: from, Op: &Op{K: "x_select_bad", Names: []string{col()}, N: int64(r.Intn(3))}})
 		case 6: // the handle as a grouped condition of a chain started elsewhere; sometimes abandoned
@@ -1405,7 +1498,7 @@ func genExec(r *lib.Rng) Input {
 			}
 		default: // a further handle
 			c := push(Step{K: "derive", P: from, Op: xop()})
-			hs = append(hs, push(Step{K: "sess", P: c, Sess: lib.Pick(r, []string{"plain", "ctx", "debug"})}))
+			hs = append(hs, push(Step{K: "sess", P: c, Sess: xsess()}))
 		}
 	}
 	push(Step{K: "finish", P: h, Fin: xfin()})
